@@ -7,7 +7,7 @@
     outcome each real authenticator type produces per credential shape, endpoint
     behaviour and cache lookup; [authenticate] runs a chain of configured steps
     (prototype flag, rule-level flag) on a request. *)
-From HV Require Import Base.Prelude C04.Model C04.Proofs C04.Checker.
+From HV Require Import Base.Prelude C04.Model C04.Proofs C04.Checker C04.FactoryProofs.
 
 (* ------------------------------------------------------------------ chain level *)
 
@@ -112,6 +112,42 @@ Theorem C04_named_rejections_block : forall q hits pre a post,
   exists n e, authenticate (pre ++ a :: post) hits q = (n, RError e) /\ n <= S (length pre).
 Proof. exact named_rejections_block. Qed.
 Print Assumptions C04_named_rejections_block.
+
+(* ------------------------------------------------------------------ histories of rule creations *)
+
+(** for all histories: rules created one after the other by one factory from the
+    prototypes [protos] ([load], C04/Model.v: WithConfig returns the object itself
+    without a config, a new object otherwise, never modifies one).  The
+    authenticator objects rule [k] holds afterwards are, step by step, equal (type
+    and allowFallbackOnError) to those it gets when created ALONE from fresh
+    prototypes: the rules before and after it, and their order, do not matter *)
+Theorem C04_flag_history_independent : forall protos rules h ls,
+  Forall (Forall (fun s => sc_proto s < length protos)) rules ->
+  load protos rules = Some (h, ls) ->
+  forall k steps al, nth_error rules k = Some steps -> nth_error ls k = Some al ->
+  exists h1 al1, create_rule protos steps = Some (h1, al1) /\
+    Forall2 (fun a b => exists o, nth_error h a = Some o /\ nth_error h1 b = Some o) al al1.
+Proof. exact flag_history_independent. Qed.
+Print Assumptions C04_flag_history_independent.
+
+(** and alone, IsFallbackOnErrorAllowed() of a step's object is [fallback_allowed]
+    of (resulting type, the prototype's flag, the step's own rule-level flag) — the
+    resolved step the type-level theorems and the evaluator work with *)
+Theorem C04_step_flag_alone : forall protos s p h a,
+  nth_error protos (sc_proto s) = Some p ->
+  with_config protos (sc_proto s) (sc_config s) = Some (h, a) ->
+  exists o, nth_error h a = Some o /\
+    obj_fallback o =
+    match sc_config s with
+    | None => obj_fallback p
+    | Some (t', ov) =>
+        match o_type p with
+        | TUnauthorized => false
+        | _ => fallback_allowed {| a_type := t'; a_proto_fb := o_flag p; a_over_fb := ov |}
+        end
+    end.
+Proof. exact step_flag_alone. Qed.
+Print Assumptions C04_step_flag_alone.
 
 (* ------------------------------------------------------------------ the predicate the correspondence run applies *)
 
